@@ -94,10 +94,10 @@ def bind_call(sig, args, kw):
     return tuple(out)
 
 
-def ident_of(spec, tag):
+def ident_of(spec, tag, key=None):
     """What the results of the actors of `tag` say about their maker: the tag, or - built with hyper-parameters - the
-    tag together with the full parameter assignment."""
-    b = (spec.get('builders') or {}).get(str(tag))
+    tag together with the full parameter assignment. `key`: the functor may carry a builder of its own ('alt')."""
+    b = (spec.get('alt') or {}).get(str(key)) or (spec.get('builders') or {}).get(str(tag))
     if b is None:
         return tag
     try:
@@ -149,14 +149,15 @@ class Oracle:
             return rt().stored_payload(prev[i][1])
         return self.T('stored', i) if prev[i] else None
 
-    def ident(self, tag):
-        if tag not in self.idents:
+    def ident(self, tag, key=None):
+        k = (tag, key if str(key) in (self.spec.get('alt') or {}) else None)
+        if k not in self.idents:
             try:
-                self.idents[tag] = ident_of(self.spec, tag)
+                self.idents[k] = ident_of(self.spec, tag, key)
             except Uninstantiable as e:
                 self.uninstantiable = self.uninstantiable or e
-                self.idents[tag] = tag
-        return self.idents[tag]
+                self.idents[k] = tag
+        return self.idents[k]
 
     def val(self, key):
         if key in self.memo:
@@ -184,11 +185,11 @@ class Oracle:
                 if v is not None and (v or self.setfalsy):
                     st = v
             if action == 'apply':
-                res = T('apply', self.ident(tag), st, tuple(vs))
+                res = T('apply', self.ident(tag, key), st, tuple(vs))
             else:
                 if len(vs) != 2:
                     raise Invalid('train arity')
-                res = T('state', self.ident(tag), st, vs[0], vs[1])
+                res = T('state', self.ident(tag, key), st, vs[0], vs[1])
         elif kind == 'getter':
             if len(vs) != 1:
                 raise Invalid('getter arity')
@@ -381,6 +382,26 @@ CORPUS = [
                             assets={'persistent': [4, 2], 'prev': [['f', 1000], ['f', 1003]]})),
     ('falsy-data', table((0, F(1000), []), (1, F(1001), [0]), (10, ['getter', 0], [1]), (12, ['getter', 2], [1]),
                          (2, F(2), [12, 0]), (3, F(1003), [10, 2, 0]))),
+    # builders that print the same and make different actors, in parallel branches over one shared result (and the
+    # converse: one actor, builders printing differently)
+    ('blind-fanout', table((0, F(0), []), (1, F(1), [0]), (2, F(2), [0]), (3, F(3), [1, 2]),
+                           blind={'1': 'fn', '2': 'fn', '3': 'obj', '0': 'obj'})),
+    ('blind-fanout-objects', table((0, F(0), []), (1, F(1), [0]), (2, F(2), [0]), (4, F(4), [0]), (3, F(3), [2, 4, 1]),
+                                   blind={'1': 'obj', '2': 'obj', '4': 'obj'})),
+    ('blind-train', table((0, F(0), []), (1, F(1), [0]), (10, ['getter', 0], [1]), (11, ['getter', 1], [1]),
+                          (5, F(5), [10]), (6, F(6), [10]),
+                          (2, F(2, 'train', 0), [5, 11]), (4, F(4, 'train', 0), [6, 11]),
+                          (3, F(2, 'apply', 1), [2, 5]), (7, F(4, 'apply', 1), [4, 6]), (8, F(8), [3, 7]),
+                          (30, ['dumper'], [2]), (32, ['dumper'], [4]), (31, ['committer'], [30, 32]),
+                          assets={'persistent': [2, 4], 'prev': None},
+                          blind={'5': 'fn', '6': 'fn', '2': 'obj', '4': 'obj'})),
+    ('blind-none-vs-default', table((0, F(0), []), (1, F(1), [0]), (2, F(2), [0]), (3, F(3), [1, 2]),
+                                    builders={'1': {'cls': 'HyB', 'args': [], 'kw': {'lower': None}},
+                                              '2': {'cls': 'HyB', 'args': [], 'kw': {}}},
+                                    blind={'1': 'obj', '2': 'obj'})),
+    ('same-actor-printed-differently', table((0, F(0), []), (1, F(1), [0]), (2, F(1), [0]), (3, F(3), [1, 2]),
+                                             builders={'1': {'cls': 'HyB', 'args': [], 'kw': {'upper': 5}}},
+                                             alt={'2': {'cls': 'HyB', 'args': [], 'kw': {'upper': 5, 'flag': True}}})),
     ('falsy-and-hyper', table((0, F(0), []), (20, ['loader', 7], []), (1, F(1001, 'apply', 1), [20, 0]), (2, F(2), [1, 0]),
                               assets={'persistent': [7], 'prev': [['f', 1000]]},
                               builders={'1001': {'cls': 'HyB', 'args': [], 'kw': {'upper': None, 'flag': None}},
@@ -627,13 +648,37 @@ def retag(spec, mapping):
         out['stateful'] = {str(mapping.get(int(t), int(t))): v for t, v in spec['stateful'].items()}
     if spec.get('builders'):
         out['builders'] = {str(mapping.get(int(t), int(t))): v for t, v in spec['builders'].items()}
+    if spec.get('blind'):
+        out['blind'] = {str(mapping.get(int(t), int(t))): v for t, v in spec['blind'].items()}
     if spec.get('fail') is not None:
         out['fail'] = mapping.get(spec['fail'], spec['fail'])
     return out
 
 
-def decorate(rng, spec, hyper=0.5, falsy=0.5):
+def explicit_default(rng, b):
+    """A builder that configures the same actor as `b` and prints differently: one more parameter is given its
+    constructor default explicitly (None if nothing is left to spell out)."""
+    R = rt()
+    sig = R.signature_of(b['cls'])
+    free = [(n, d) for i, (n, d, _) in enumerate(sig)
+            if i >= len(b.get('args', ())) and n not in b.get('kw', {}) and not (isinstance(d, str) and d == R.NODEFAULT)]
+    if not free:
+        return None
+    n, d = rng.choice(free)
+    return {'cls': b['cls'], 'args': list(b.get('args', ())), 'kw': dict(b.get('kw', {}), **{n: d})}
+
+
+def blinded(rng, spec, p=1.0):
+    """The spec whose builders do not print what tells them apart: the tag of (a share `p` of) the actors is handed over
+    as an object / a closure with a constant printed form - behaviourally different builders then print the same."""
+    blind = {str(t): rng.choice(['obj', 'fn']) for t in tags_of(spec) if rng.random() < p}
+    return dict(spec, blind=blind) if blind else spec
+
+
+def decorate(rng, spec, hyper=0.5, falsy=0.5, blind=0.35):
     """Payload / configuration widening of any table spec (the shape is untouched):
+      * builders that print the same although they make different actors (`blinded`), and functors of one actor whose
+        builders print differently although they make the same actor (`explicit_default`);
       * builders with hyper-parameters for some of the actor tags (`gen_builder`);
       * actors whose outputs and / or trained states are falsy payloads (tag bits, see c02_rt.falsy_term);
       * falsy stored states in the previous generation (b'', 0, falsy provenance terms)."""
@@ -668,6 +713,17 @@ def decorate(rng, spec, hyper=0.5, falsy=0.5):
                     b['kw']['scale'] = rng.choice(HYPER_VALUES)
                 builders[str(t)] = b
         out = dict(out, builders=builders)
+        alt = {}
+        for k, ins, _ in out['syms']:
+            b = builders.get(str(ins[1])) if ins[0] == 'functor' else None
+            if b is not None and ins[2] == 'apply' and ins[3] == 0 and rng.random() < 0.3:
+                e = explicit_default(rng, b)
+                if e is not None:
+                    alt[str(k)] = e
+        if alt:
+            out = dict(out, alt=alt)
+    if rng.random() < blind:
+        out = blinded(rng, out, rng.choice([0.5, 1.0]))
     return out
 
 
@@ -776,10 +832,13 @@ def segment_case(rng, seg):
         if a and a.get('prev'):
             seg['assets'] = {'persistent': a['persistent'], 'prev': [['f', rng.choice([R.FALSY_BASE, R.FALSY_BASE + 1, R.FALSY_BASE + 2 + i])]
                                                                       if rng.random() < 0.5 else b for i, b in enumerate(a['prev'])]}
-    d = R.describe_segment(seg, builders)
+    blinds = {}
+    if rng.random() < 0.5:
+        blinds = {str(n[1]): rng.choice(['obj', 'fn']) for n in seg['nodes'] if rng.random() < 0.7}
+    d = R.describe_segment(seg, builders, blinds)
     if d is None:
         return None
-    return {'syms': d['syms'], 'assets': d['assets'], 'segment': seg, 'builders': builders,
+    return {'syms': d['syms'], 'assets': d['assets'], 'segment': seg, 'builders': builders, 'blind': blinds,
             'stateful': {str(t): True for t in seg['stateful']}}
 
 
@@ -908,9 +967,9 @@ def builder_sexp(tag, b):
             [[pnames().index(k), hyper_sexp(v)] for k, v in b.get('kw', {}).items()]]
 
 
-def instr_sexp(ins, builders=None):
+def instr_sexp(ins, builders=None, alt=None):
     if ins[0] == 'functor':
-        return ['functor', builder_sexp(ins[1], (builders or {}).get(str(ins[1]))), ins[2], ['setstate'] * ins[3]]
+        return ['functor', builder_sexp(ins[1], alt or (builders or {}).get(str(ins[1]))), ins[2], ['setstate'] * ins[3]]
     if ins[0] in ('getter', 'loader'):
         return [ins[0], ins[1]]
     return ins[0]
@@ -923,7 +982,8 @@ def prev_sexp(i, b):
 
 
 def case_sexp(spec, info, x):
-    syms = [[['uid', k], instr_sexp(ins, spec.get('builders')), [['uid', a] for a in args]] for k, ins, args in spec['syms']]
+    syms = [[['uid', k], instr_sexp(ins, spec.get('builders'), (spec.get('alt') or {}).get(str(k))), [['uid', a] for a in args]]
+            for k, ins, args in spec['syms']]
     a = spec.get('assets')
     if a is None:
         assets = None
@@ -1089,6 +1149,8 @@ def features(spec, info):
         f.append('head-fanout')
     if spec.get('builders'):
         f.append('hyper')
+    if spec.get('blind'):
+        f.append('blind')
     a = spec.get('assets') or {}
     if any(t >= rt().FALSY_BASE for t in tags_of(spec)) or any(isinstance(b, list) for b in a.get('prev') or ()):
         f.append('falsy')
@@ -1121,7 +1183,10 @@ class C02(fw.Check):
             'flow.Spec (creation, instantiation, pickle and cloudpickle round trip) and the Lean Spec model; (g) real flow '
             'segments (pipelines with trained groups, forks, fan-out, multi-output workers) handed to Runner._exec of the '
             'dask runner under every scheduler and of the pyfunc runner; (h) every table also evaluated directly on '
-            'instructions rebuilt from their cloudpickle (ref-shipped).')
+            'instructions rebuilt from their cloudpickle (ref-shipped); (i) builders that print the same although they make different '
+            'actors (tag handed over as a repr-blind object / closure, also with None vs non-None default) and builders of one '
+            'actor printing differently, in parallel branches over equal arguments: every small enumerated shape blinded, 35 % of '
+            'the decorated cases, corpus; the dask key of every instruction object is checked to differ for different content.')
     TRUSTED = [
         'symbolic actors/payloads (provenance terms, structural digests): runners are assumed payload-agnostic except for '
         'the truthiness of a payload, which the payloads carry (falsy outputs / states / stored states; the convention is the '
@@ -1409,7 +1474,7 @@ class C02(fw.Check):
         feats = features(spec, info) if info['valid'] else ['invalid:' + str(info['why'])]
         nsym = len(spec['syms'])
         shape = f'{stream}: {"+".join(feats)} n={nsym if nsym < 8 else "8+"}' + ('' if info['valid'] else '')
-        key = repr((spec['syms'], spec.get('assets')))
+        key = repr((spec['syms'], spec.get('assets'), spec.get('builders'), spec.get('blind'), spec.get('alt')))
         sample = None
         if info['valid'] and nsym >= 4:
             sample = {'table': spec['syms'], 'assets': spec.get('assets'), 'backends': {b: o['status'] for b, o in res.items()}}
@@ -1441,6 +1506,28 @@ class C02(fw.Check):
                     self._observe(spec, info, b, o, None, witness, 'pyfunc')
                 elif b == 'pyfunc-recover' and info['pyfunc']:
                     self._observe(spec, info, b, o, R.Term(*R.INPUT), witness, 'pyfunc')
+        # ---- the names dask gives the pure tasks: different instruction content, different name -----
+        names = (ref or {}).get('names')
+        if info['valid'] and not unbuildable and names and 'error' not in names:
+            orc = info['oracle']
+            content = {}
+            for k, (ins, _) in orc.by.items():
+                if ins[0] == 'functor':
+                    content[k] = ('functor', R.digest(orc.ident(ins[1], k)), ins[2], ins[3])
+                elif ins[0] in ('getter', 'loader'):
+                    content[k] = (ins[0], ins[1])
+                else:
+                    content[k] = (ins[0],)
+            seen = {}
+            for k in orc.by:
+                n = names.get(str(k))
+                if n is None:
+                    continue
+                if n in seen and content[seen[n]] != content[k]:
+                    self.diverge('dask names two instructions of different content alike (Lean: Table.namesInjective of the '
+                                 'content naming)', witness, [orc.by[seen[n]][0], orc.by[k][0], n], 'different names')
+                    break
+                seen.setdefault(n, k)
         # ---- model vs implementation ------------------------------------------------------------
         if m is None or unbuildable:
             return
@@ -1506,7 +1593,9 @@ class C02(fw.Check):
                     self.diverge('model: dask job does not run every task exactly once', witness, None, mdask[2])
             else:
                 want = {'duplicated': 'AssertionError', 'notAcyclic': 'AssertionError', 'recursion': 'RecursionError'}[mdask[1]]
-                if o.get('error') != want:
+                # a cycle reachable from a leaf: `link` never returns - in which frame (forml's, dask's, a tokeniser's)
+                # CPython's recursion limit strikes, and as what it surfaces, is incidental
+                if o['status'] == 'ok' or (o.get('error') != want and mdask[1] != 'recursion'):
                     self.diverge(f'{b} outcome', witness, o.get('error', o['status']), mdask)
         # the `processes` scheduler: every instruction executed on a copy rebuilt from its pickle
         for b in ('dask-processes', 'dask-processes-fresh'):
@@ -1740,6 +1829,15 @@ class C02(fw.Check):
             for n in range(2, self.n(4, 5) + 1):
                 small.extend((f'enum-{n}-{i}', s) for i, s in enumerate(enum_apply(n)))
             self._batch(small, 'enumerated')
+            # every small shape once more with builders that print the same although they make different actors
+            # (parallel branches over one shared result with equal arguments are among them), partly with equal tags
+            # printed differently
+            blind = []
+            for name, s in small:
+                if len(s['syms']) <= (4 if self.quick else 5) and (len(s['syms']) > 2 or rng.random() < 0.2):
+                    blind.append((name + '-blind', blinded(rng, s)))
+            blind = blind if not self.quick else rng.sample(blind, min(len(blind), 70))
+            self._batch(blind, 'blind', procs_plan=self._plan(blind, self.n(10, 60)))
             if not self.quick:
                 six = [(f'enum-6-{i}', s) for i, s in enumerate(enum_apply(6))]
                 self.notes.append(f'exhaustive apply DAGs with 6 workers: {len(six)} (pyfunc + models only)')
@@ -1783,6 +1881,8 @@ class C02(fw.Check):
             for i in range(self.n(150, 600)):
                 base = gen_train(rng, stages=1) if i % 3 == 0 else gen_apply(rng, rng.choice([2, 2, 3, 3, 4]), loaders=True)
                 conf.append((f'search-configured-{i}', decorate(rng, base, hyper=0.8, falsy=0.8)))
+            for n in (3, 4):
+                conf.extend((f'search-blind-{n}-{i}', blinded(rng, s)) for i, s in enumerate(enum_apply(n)))
             conf = self._bounded(conf)
             self._batch(conf, 'search', procs_plan={i: 'pool' for i in range(len(conf))})
             small = []
